@@ -41,11 +41,13 @@ LEVEL = "exploration"
 RULE = (
     "every container of the grid (identifier list x parameter naming x shape per parameter in {(),(1,),(2,),(3,)} "
     "x scalar/vector value type x value placement) is built on the real class and every conversion chain over "
-    "{re-add dict, JSON file, DataFrame, CSV file, tensors} up to the stated length is walked breadth-first "
+    "{re-add dict, JSON file (default / sort_keys=True / compact), DataFrame, CSV file, tensors} up to the stated length is walked breadth-first "
     "(container contents reached twice are expanded once); a case is distinct and non-trivial when the pair "
     "(container contents incl. python types, conversion step) is new, respectively when the triple "
     "(container before, malformed addition, position) is new; every case executes the implementation and is "
-    "compared with a list-of-floats reference, intermediate table/tensor/file forms included"
+    "compared with a list-of-floats reference, intermediate table/tensor/file forms included; every distinct "
+    "container reached is moreover read through ALL its accessors (table, tensors, items, subset in three orders, "
+    "mean/std/identity aggregates) and each is compared with the reference"
 )
 ASSUMPTIONS = [
     "non-empty containers only (conversions of an empty container are outside the property)",
@@ -55,6 +57,9 @@ ASSUMPTIONS = [
     "every value is compared at single precision once a tensor was on the path; bit-exact (==, NaN-aware) otherwise",
     "int values must come back numerically equal (70 == 70.0); integer alphabet stays below 2**24+2",
     "order of parameter names is not part of the property (identifier order is)",
+    "items() and get_aggregate() are treated as order-free views (mapping / multiset): the internal dict may "
+    "legitimately be ordered differently from the identifier list (e.g. after loading a JSON file written with sort_keys=True); "
+    "to_dataframe, to_pytorch, subset and save must follow the identifier list",
     "parameter names do not end in _<digits> (inherently ambiguous in the table form)",
     "value placement: every slot takes every value of the alphabet (cyclic offsets), not the full product of slots x values",
     "quick tier pairs scalar and vector value types diagonally; thorough takes their full product",
@@ -77,8 +82,10 @@ VALUES = {
 INTS = [70, -3, 0, 1000000, 16777217]
 
 ID_LISTS = {
-    "quick": [["a"], ["1", "02"], ["x", "y", "z"], ["z", "y", "x"], ["NA", "b"]],
-    "thorough": [["a"], ["1", "02"], ["x", "y", "z"], ["z", "y", "x"], ["NA", "b"],
+    # several lists whose lexicographic order differs from their insertion order (JSON written with sort_keys=True
+    # then stores the individuals in another order than the identifier list)
+    "quick": [["a"], ["1", "02"], ["x", "y", "z"], ["z", "y", "x"], ["NA", "b"], ["10", "9", "100", "2"]],
+    "thorough": [["a"], ["1", "02"], ["x", "y", "z"], ["z", "y", "x"], ["NA", "b"], ["10", "9", "100", "2"],
                  ["10", "9", "1.0", " a"], ["null"], ["nan", "None", "c"], ["a,b", 'q"r', "é"]],
 }
 NAMINGS = {
@@ -91,7 +98,13 @@ SCALAR_TYPES = ["float", "int", "np.float32", "np.float64", "np.int64", "np.int3
 VECTOR_TYPES = ["list_float", "list_int", "list_np.float32", "list_np.float64", "ndarray_i64",
                 "list_int_float", "ndarray_f64", "ndarray_f32"]
 DIAGONAL = list(zip(SCALAR_TYPES + ["float"], VECTOR_TYPES))
-STEPS = ["dict", "json", "df", "csv", "torch"]
+STEPS = ["dict", "json", "json_sorted", "json_compact", "df", "csv", "torch"]
+# keyword arguments forwarded by save(path, **kwargs) to json.dump (documented: `ip.save("params.json", indent=4)`)
+JSON_KWARGS = {
+    "json": {},
+    "json_sorted": {"sort_keys": True, "indent": 4},
+    "json_compact": {"indent": None, "separators": (",", ":")},
+}
 PANDAS_NA_STRINGS = {"", "NA", "N/A", "n/a", "nan", "NaN", "-nan", "-NaN", "null", "NULL", "None", "<NA>", "#N/A",
                      "#NA", "#N/A N/A", "-1.#IND", "-1.#QNAN", "1.#IND", "1.#QNAN"}
 # column orders tried for hand-built tables (drop "reversed" to stop asking that `_i` suffixes be honoured)
@@ -217,6 +230,8 @@ def features(ip):
             for x in (v if isinstance(v, list) else [v]):
                 if isinstance(x, np.generic) and not isinstance(x, (float, int)):
                     f.add("numpy_scalar")
+    if list(ip._individual_parameters) != list(ip._indices):
+        f.add("dict_order_differs")
     return f
 
 
@@ -234,8 +249,8 @@ def compare_container(ip, ref, amb):
     if ids != ref["ids"] or not all(isinstance(i, str) for i in ids):
         return [("identifiers changed", "identifiers (strings, in order) differ", ref["ids"], [repr(i) for i in ids])]
     item_ids = [i for i, _ in ip.items()]
-    if item_ids != ids:
-        return [("identifiers changed", "items() and the index list disagree", ids, [repr(i) for i in item_ids])]
+    if sorted(map(repr, item_ids)) != sorted(map(repr, ids)):  # a mapping view: same keys, order free
+        return [("identifiers changed", "items() and the index list hold different identifiers", ids, [repr(i) for i in item_ids])]
     shapes = {k: tuple(v) for k, v in (ip._parameters_shape or {}).items()}
     if set(shapes) != set(ref["names"]):
         return [("parameter names changed", "parameter names differ", sorted(ref["names"]), sorted(shapes))]
@@ -365,7 +380,7 @@ def check_json_file(path, ref):
         if tuple(shp[n]) != ref["shape"][n]:
             return [("shape changed", f"JSON file: {n}", list(ref["shape"][n]), shp[n])]
     ips = data.get("individual_parameters")
-    if not isinstance(ips, dict) or list(ips) != ref["ids"]:
+    if not isinstance(ips, dict) or sorted(ips) != sorted(ref["ids"]):  # order is carried by "indices"
         return [("identifiers changed", "JSON file: individual_parameters", ref["ids"], list(ips) if isinstance(ips, dict) else None)]
     for i in ref["ids"]:
         if set(ips[i]) != set(ref["names"]):
@@ -415,6 +430,8 @@ def feature_for(site, kind, feats, coarse_txt):
         return "identifier that pandas reads as a missing value (NA, nan, null, None, empty)"
     if site == "load(csv)" and kind == "value differs in the last float64 digits":
         return "float64 value written with 16-17 significant digits"
+    if "dict_order_differs" in feats and kind in ("value changed", "identifiers changed", "shape changed"):
+        return "container whose internal dict order differs from its identifier list (e.g. loaded from JSON saved with sort_keys=True)"
     return coarse_txt
 
 
@@ -434,14 +451,14 @@ def apply_step(step, ip, ref, tmp):
     new = None
     try:
         if step == "dict":
-            form = call("items", lambda: [(i, p) for i, p in ip.items()])
+            form = call("__getitem__", lambda: [(i, ip[i]) for i in ip._indices])
             new = IP()
             for i, p in form:
                 call("add_individual_parameters(re-add)", new.add_individual_parameters, i, p)
             back_site = "add_individual_parameters(re-add)"
-        elif step == "json":
+        elif step in JSON_KWARGS:
             path = os.path.join(tmp, "ip.json")
-            call("save(json)", ip.save, path)
+            call("save(json)", ip.save, path, **JSON_KWARGS[step])
             out += [viol("save(json)", k, m, e, o) for k, m, e, o in check_json_file(path, ref)]
             if not out:
                 new = call("load(json)", IP.load, path)
@@ -507,6 +524,87 @@ def apply_step(step, ip, ref, tmp):
     adopt_shapes(new, new_ref)
     changed = [n for n in ref["names"] if new_ref["shape"][n] != ref["shape"][n]]
     return new, new_ref, out, f"{step}:ok" + ("(scalar->len1)" if changed else "")
+
+
+# ------------------------------------------------------------------------------------------ all accessors of one container
+
+def _sub_ref(ref, ids):
+    return {"ids": list(ids), "names": list(ref["names"]), "shape": dict(ref["shape"]), "prec": dict(ref["prec"]),
+            "vals": {i: ref["vals"][i] for i in ids}}
+
+
+def _identity(p, axis=0):
+    return np.asarray(p, dtype=float)
+
+
+def check_views(ip, ref):
+    """Read ONE container through every accessor and compare each with the reference (an internal-order
+    inconsistency shows whichever accessor is wrong).  -> violations [(signature, message, expected, observed)]"""
+    feats = features(ip)
+    ctxt = coarse(ref["shape"].values(), len(ref["ids"]))
+    before = state_key(ip)
+    out = []
+
+    def viol(site, kind, msg, exp=None, obs=None):
+        out.append((f"{site}|{kind}|{feature_for(site, kind, feats, ctxt)}", f"view {site}: {msg}", exp, obs))
+
+    def view(site, fn, check):
+        try:
+            res = call(site, fn)
+        except Impl as e:
+            kind = type(e.exc).__name__
+            viol(e.site, kind, f"{kind}: {str(e.exc)[:300]}", "succeeds", kind)
+            return
+        for k, m, e, o in check(res)[:1]:
+            viol(site, k, m, e, o)
+
+    ids = ref["ids"]
+    view("to_dataframe", ip.to_dataframe, lambda df: check_dataframe(df, ref))
+    view("to_pytorch", ip.to_pytorch, lambda res: check_tensors(res, ref))
+
+    def chk_items(items):
+        d = dict(items)
+        if len(items) != len(ids) or set(d) != set(ids):
+            return [("identifiers changed", "items()", sorted(ids), sorted(map(repr, d)))]
+        return [("value changed", f"items()[{i!r}] is not the entry of {i!r}", None, None) for i in ids if d[i] is not ip[i] and d[i] != ip[i]]
+    view("items", lambda: list(ip.items()), chk_items)
+
+    orders = [list(reversed(ids)), ids[:1], ids[1:] + ids[:1]] if len(ids) > 1 else [list(ids)]
+    for k, sel in enumerate(orders):
+        for copy in ((True, False) if k == 0 else (True,)):
+            view("subset", lambda sel=sel, copy=copy: ip.subset(list(sel), copy=copy),
+                 lambda sub, sel=sel: ([("did not return an IndividualParameters", "subset", None, repr(sub)[:100])]
+                                      if not isinstance(sub, IP) else compare_container(sub, _sub_ref(ref, sel), False)))
+
+    finite = all(math.isfinite(x) for i in ids for n in ref["names"] for x in ref["vals"][i][n])
+    for n in ref["names"]:
+        rows = [ref["vals"][i][n] for i in ids]  # n_ind x size
+
+        def chk_multiset(res, rows=rows, n=n):
+            got = np.asarray(res, dtype=float).reshape(len(ids), -1).tolist()
+            f32 = ref["prec"][n] == "f32"
+            key = lambda r: [(-1.0, 0.0) if x != x else (0.0, float(np.float32(x)) if f32 else float(x)) for x in r]  # noqa: E731
+            got, exp = sorted(got, key=key), sorted(rows, key=key)
+            if not all(num_eq(a, b, ref["prec"][n]) for r, e in zip(got, exp) for a, b in zip(r, e)):
+                return [("value changed", f"get_aggregate({n!r}, identity) is not the multiset of stored values", exp, got)]
+            return []
+        view("get_aggregate", lambda n=n: ip.get_aggregate(n, _identity), chk_multiset)
+        if not finite:
+            continue
+        arr = np.asarray(rows, dtype=float)
+        scale = float(np.abs(arr).max()) if arr.size else 0.0
+        # float64 mean / std of <= 4 numbers: error <= a few eps * max|x|; parameters compared at single precision: eps32
+        tol = (64 * 2.0 ** -52 if ref["prec"][n] == "exact" else 32 * 2.0 ** -23) * scale
+        for site, fn, exp in (("get_mean", ip.get_mean, arr.mean(axis=0)), ("get_std", ip.get_std, arr.std(axis=0))):
+            def chk(res, exp=exp, site=site, n=n):
+                got = np.asarray(res, dtype=float).reshape(-1)
+                if got.shape != exp.shape or not np.all(np.abs(got - exp) <= tol):
+                    return [("value changed", f"{site}({n!r})", exp.tolist(), got.tolist())]
+                return []
+            view(site, lambda fn=fn, n=n: fn(n), chk)
+    if state_key(ip) != before:
+        viol("accessors", "source container modified by reading it", "container differs after the calls")
+    return out
 
 
 # ------------------------------------------------------------------------------------------ starting points
@@ -606,6 +704,15 @@ def build_start(spec):
     return ip, ref, [], f"{site}:ok"
 
 
+def _views(acc, ip, ref, spec, chain):
+    acc.evaluation()
+    acc.nontriv((state_key(ip), "views"))
+    viols = check_views(ip, ref)
+    acc.outcome("views:ok" if not viols else "views:" + viols[0][0].split("|")[1])
+    for sig, msg, exp, obs in viols:
+        acc.violation(sig, msg, {"kind": "chain", "spec": spec, "chain": chain, "views": True}, exp, obs)
+
+
 def explore(spec, depth, acc, tmp):
     """BFS over conversion chains from one starting container."""
     acc.evaluation()
@@ -619,6 +726,7 @@ def explore(spec, depth, acc, tmp):
     acc.sample({"spec": spec, "container": {i: {k: _tag(v) for k, v in p.items()} for i, p in ip.items()}})
     seen = {state_key(ip)}
     acc.state()
+    _views(acc, ip, ref, spec, [])
     frontier = [(ip, ref, [])]
     fix = False
     for _ in range(depth):
@@ -639,6 +747,7 @@ def explore(spec, depth, acc, tmp):
                 if k not in seen:
                     seen.add(k)
                     acc.state()
+                    _views(acc, new, new_ref, spec, chain + [step])
                     nxt.append((new, new_ref, chain + [step]))
         frontier = nxt
         if not frontier:
@@ -911,6 +1020,9 @@ def bounds(tier):
         "int_values": INTS,
         "value_placements": "cyclic offsets {0,3}" if tier == "quick" else "all cyclic offsets",
         "conversion_chain_length": f"<= {_depth(tier)} over {STEPS} (breadth-first, fixpoint detected when no new container content appears)",
+        "json_save_options": {k: {a: repr(b) for a, b in v.items()} for k, v in JSON_KWARGS.items()},
+        "accessors_read_on_every_distinct_container": "to_dataframe, to_pytorch, items, subset (reversed with/without copy, first only, rotated), "
+                                                      "get_aggregate(identity) as a multiset, get_mean, get_std",
         "other_starts": "from_pytorch (float32/float64, 2-D and 1-D), from_dataframe (canonical / reversed column order, p or p_0 for size 1), sizes {1,2,3}",
         "malformed_additions": f"{len(reject_cases(tier))} (bases x 0..2 valid entries before x malformation x slot)",
     }
@@ -974,6 +1086,8 @@ def replay(case):
                 break
             ip, ref, viols, _ = apply_step(step, ip, ref, tmp)
             out += [{"signature": s, "message": f"{m} expected={e!r} observed={o!r}"[:1000]} for s, m, e, o in viols]
+        if case.get("views") and ip is not None:
+            out += [{"signature": s, "message": f"{m} expected={e!r} observed={o!r}"[:1000]} for s, m, e, o in check_views(ip, ref)]
     finally:
         shutil.rmtree(tmp, ignore_errors=True)
     return out
